@@ -68,6 +68,12 @@ def make_files(ctx):
     files.append(("trunc_midblock", big[:cut], lb))
     lb = mtlib.layout(base); cut = lb["blocks"][3]["off"] + 5; lb["filelen"] = cut
     files.append(("trunc_hdr", base[:cut], lb))
+    # truncated inside the Check field / inside the Block Padding + last data bytes of a Block
+    for nm, src, bi, back in (("trunc_check", big, 1, 3), ("trunc_tail", base, 2, 6)):
+        lb = mtlib.layout(src); b = lb["blocks"][bi]
+        cut = b["off"] + b["bh"] + b["insz"] - back
+        lb["filelen"] = cut
+        files.append((nm, src[:cut], lb))
     # Blocks without size fields (single-threaded encoder + FULL_FLUSH): direct mode
     c = lz.Coder(); assert c.init("lzma_easy_encoder", 0, lz.CHECK_CRC32) == lz.OK
     import ctypes as C
@@ -119,9 +125,13 @@ def run(ctx):
             for k in range(nseeds):
                 seed = ctx.seed * 1000 + k + 17 * len(jobs)
                 endafter = -1 if k % 3 != 2 else ctx.rng.randint(1, 6)
-                jobs.append((g, dict(threads=nw, timeout=to, flags=fl, seed=seed, perturb=[0, 25, 60][k % 3],
-                                     endafter=endafter, slicing=0 if (k == 0) else 1,
-                                     cpus=[0, 2, 1][k % 3] if not ctx.quick else 0)))
+                p = dict(threads=nw, timeout=to, flags=fl, seed=seed, perturb=[0, 25, 60][k % 3],
+                         endafter=endafter, slicing=0 if (k == 0) else 1,
+                         cpus=[0, 2, 1][k % 3] if not ctx.quick else 0)
+                if k % 3 == 1:
+                    # re-initialise the same handle without lzma_end() after a few calls, then decode from the start
+                    p["reinit_after"] = ctx.rng.randint(1, 6)
+                jobs.append((g, p))
     def exec_job(j):
         g, params = j
         i = jobs.index(j)
@@ -149,7 +159,7 @@ def run(ctx):
         init_ev, evs = mtlib.fold(res["events"])
         if any(e["e"] in ("OVERFLOW", "TOOMANYCALLS") for e in evs):
             raise MachineryError("driver event buffer overflow / too many calls: " + label)
-        g["runs"].append((label, [{"e": "Reset"}] + evs))
+        g["runs"].append((label, [{"e": "Reset"}] + [e for e in evs if not (e["e"] == "Reinited" and e["a"] != 0)]))
         # final observation against the real single-threaded decoder
         st_ret, st_out = g["st"]
         rets = [e for e in evs if e["e"] == "Ret"]
